@@ -57,6 +57,18 @@ def nints(elapsed, interval):
     return q4(elapsed) // q4(interval)
 
 
+_quiet = False
+
+
+def quiet():
+    """Keep Twisted's not-yet-started logging from writing unhandled-error reports of broken trees to stderr."""
+    global _quiet
+    if not _quiet:
+        _quiet = True
+        from twisted.logger import globalLogBeginner
+        globalLogBeginner.beginLoggingTo([lambda e: None], redirectStandardIO=False, discardBuffer=True)
+
+
 class Boom(Exception):
     pass
 
@@ -355,6 +367,7 @@ def shards(tier, seed):
 
 
 def run_shard(shard, tier, seed):
+    quiet()
     cfg, k, part = tuple(shard[0]), shard[1], shard[2]
     st = Stats()
     run = make_run(cfg, tier, part)
@@ -374,6 +387,7 @@ def run_shard(shard, tier, seed):
 
 
 def replay(w):
+    quiet()
     cfg = tuple(w["cfg"])
     run = make_run(cfg, w.get("tier", "quick"), w.get("part", 0))
     h = run(Chooser(w["choices"]))
